@@ -37,14 +37,21 @@ type Corruption struct {
 }
 
 type Data struct {
-	Format    string         `json:"format"` // json | query | yaml
-	Text      TextSpec       `json:"text"`
-	Query     *QuerySpec     `json:"query,omitempty"`
-	YAML      *YAMLSpec      `json:"yaml,omitempty"`
-	Corrupt   Corruption     `json:"corrupt"`
-	Transport string         `json:"transport"` // pipe | seek | file | slurpfile | argjson | stream-pipe | arg | fromfile | ...
-	Plan      simio.ReadPlan `json:"plan"`
-	PlanClass string         `json:"plan_class,omitempty"`
+	Format    string     `json:"format"` // json | query | yaml
+	Text      TextSpec   `json:"text"`
+	Query     *QuerySpec `json:"query,omitempty"`
+	YAML      *YAMLSpec  `json:"yaml,omitempty"`
+	Corrupt   Corruption `json:"corrupt"`
+	Transport string     `json:"transport"` // pipe | seek | file | slurpfile | argjson | stream-pipe | arg | fromfile | ...
+	// FromLibrary: an arbitrary token-level mutation of a query; which token is at fault is not known
+	// by construction, so the offending byte is taken from the library's ParseError (after checking
+	// that its Offset and Token are consistent with the source) and the command's line, excerpt and
+	// caret are checked against that byte.
+	FromLibrary bool `json:"from_library,omitempty"`
+	offOverride *int
+	eofOverride bool
+	Plan        simio.ReadPlan `json:"plan"`
+	PlanClass   string         `json:"plan_class,omitempty"`
 }
 
 type tiers struct {
@@ -67,6 +74,14 @@ func (Prop) Units(t string, seed uint64) int {
 // ---- the corrupted input and where the offending byte is ---------------------
 
 func (d *Data) corrupted() (text string, offending int, eof bool) {
+	text, offending, eof = d.corrupted0()
+	if d.offOverride != nil {
+		offending, eof = *d.offOverride, d.eofOverride
+	}
+	return
+}
+
+func (d *Data) corrupted0() (text string, offending int, eof bool) {
 	var t string
 	if d.Format == "query" && d.Query != nil {
 		t = d.Query.Text()
@@ -378,6 +393,9 @@ func (Prop) Exec(c kernel.Case) *kernel.Violation {
 }
 
 func execData(d *Data) *kernel.Violation {
+	if d.FromLibrary {
+		return execFromLibrary(d)
+	}
 	if d.Format == "query" {
 		if v := judgeParseError(d); v != nil {
 			return v
@@ -389,6 +407,53 @@ func execData(d *Data) *kernel.Violation {
 }
 
 var lastResult result
+
+// execFromLibrary: consistency of the library's ParseError with the source, then the command's
+// report against the byte the library names.
+func execFromLibrary(d *Data) *kernel.Violation {
+	d.offOverride = nil
+	text, _, _ := d.corrupted()
+	var perr *gojq.ParseError
+	var panicked string
+	func() {
+		defer func() {
+			if r := recover(); r != nil {
+				panicked = fmt.Sprint(r)
+			}
+		}()
+		if _, err := gojq.Parse(text); err != nil {
+			perr, _ = err.(*gojq.ParseError)
+			if perr == nil {
+				panicked = "Parse returned a non-ParseError: " + err.Error()
+			}
+		}
+	}()
+	lastResult = result{}
+	if panicked != "" {
+		return viol(d, "panic", "gojq.Parse: %s", panicked)
+	}
+	if perr == nil {
+		return nil // the mutation happens to be a valid query
+	}
+	if perr.Offset < 0 || perr.Offset > len(text) {
+		return viol(d, "parse-error-offset", "ParseError.Offset %d outside the source (len %d)", perr.Offset, len(text))
+	}
+	start := perr.Offset - len(perr.Token)
+	if start < 0 || text[start:perr.Offset] != perr.Token {
+		return viol(d, "parse-error-token", "ParseError.Token %q is not the source text that ends at Offset %d (%q): Offset and Token do not identify the same bytes", perr.Token, perr.Offset, text[max(0, start):perr.Offset])
+	}
+	if perr.Token == "" && perr.Offset != len(text) {
+		return nil // an empty token inside the text (e.g. an unterminated interpolation): nothing to point at
+	}
+	if d.Transport == "arg" && strings.TrimSpace(text) != text {
+		return nil // the command trims the argument: positions shift
+	}
+	d.offOverride, d.eofOverride = &start, perr.Token == ""
+	defer func() { d.offOverride = nil }()
+	res, fname := d.run()
+	lastResult = res
+	return judge(d, res, fname)
+}
 
 // judgeParseError checks the library's ParseError against the inserted token.
 func judgeParseError(d *Data) *kernel.Violation {
@@ -655,6 +720,22 @@ func (Prop) RunUnit(env *kernel.Env, unit int) {
 					}
 					out.Inc("query_invalid_escape")
 				}
+			}
+			// arbitrary token-level mutations: insert any kind of token at any boundary
+			q.TokenFault = false
+			bs := q.boundaries()
+			for m := 0; m < 3*len(bs); m++ {
+				tok := kernel.Pick(r, tokenCatalogue)
+				c := Corruption{Kind: "insert", Pos: bs[r.Intn(len(bs))], Bytes: tok + " ", Off: 0}
+				if c.Pos == len(q.Text()) {
+					c.Bytes = " " + tok
+				}
+				qq := q
+				d := &Data{Format: "query", Query: &qq, Corrupt: c, Transport: kernel.Pick(r, []string{"arg", "fromfile", "module"}), FromLibrary: true}
+				if !try(d) {
+					break
+				}
+				out.Inc("query_arbitrary_token_mutations")
 			}
 			_ = qt
 			out.Inc("queries_all_boundaries")
